@@ -251,7 +251,7 @@ fn c05_q_entry_differential_0s_2t_devtypes_aux() {
 #[cfg_attr(kani, kani::proof)]
 #[cfg_attr(kani, kani::unwind(6))]
 #[cfg_attr(not(kani), test)]
-fn c05_x_entry_differential_2s_2t_devtypes() {
+fn c05_t_entry_differential_2s_2t_devtypes() {
     differential(2, 2, 2, any_bool());
 }
 
